@@ -242,9 +242,19 @@ where
 {
     fn parse(input: ParseStream) -> syn::Result<Self> {
         let mut attrs = ParseableAttributes::default();
+        let mut seen: Vec<String> = Vec::new();
 
         while !input.is_empty() {
             let ident: Ident = input.parse()?;
+            // A repeated `sanitize(..)`, `validate(..)`, `derive(..)` or `default = ..` would silently
+            // replace the previous one.
+            if ident == "sanitize" || ident == "validate" || ident == "derive" || ident == "default" {
+                if seen.iter().any(|s| ident == s) {
+                    let msg = format!("Duplicate attribute `{ident}`.\nPlease merge them into a single `{ident}`.");
+                    return Err(syn::Error::new(ident.span(), msg));
+                }
+                seen.push(ident.to_string());
+            }
             if ident == "sanitize" {
                 if input.peek(Paren) {
                     let content;
